@@ -31,6 +31,7 @@ import Proofs.Lemmas.C11TwoSidedIff
 import Proofs.Lemmas.C11EndToEnd
 import Proofs.Lemmas.C11Palindromic
 import Proofs.Lemmas.C11PalinSamples
+import Proofs.Lemmas.C11Benchmath
 
 namespace C11.Props
 open Stats Stats.UStat Stats.UDist
@@ -452,5 +453,51 @@ theorem palindromic_symmetric (T : List Nat) (hpal : T.reverse = T) (n : Nat) (v
       = ((Spec.UExact.nullDistOf n (poolOf T)).filter
           (fun d => decide (d + v ≥ 2 * (n * (T.sum - n))))).length :=
   C11.palindromic_symmetric T hpal n v
+
+/-! ### benchmath.AssumeNothing.Compare (what cmd/benchstat prints) -/
+
+/-- swap lemma for the enumerations: choosing the complement mirrors the statistic, so the lower tail
+    of the swapped samples at c − u is the upper tail of the original samples at u (c = 2·n1·n2) -/
+theorem p_less_swap {α : Type} [LinearOrder α] (x1 x2 : List α) (u : Nat) (hu : u ≤ 2 * (x1.length * x2.length)) :
+    Spec.UExact.pLess (Spec.UExact.nullDist x2 x1) (2 * (x1.length * x2.length) - u)
+      = Spec.UExact.pGreater (Spec.UExact.nullDist x1 x2) u :=
+  C11.pLess_swap x1 x2 u hu
+
+/-- the specification's two-sided p does not change when the samples are swapped -/
+theorem spec_two_sided_swap {α : Type} [LinearOrder α] (x1 x2 : List α) :
+    Spec.UExact.pTwoSided (Spec.UExact.nullDist x2 x1) (Spec.UExact.twoUPairs x2 x1)
+      = Spec.UExact.pTwoSided (Spec.UExact.nullDist x1 x2) (Spec.UExact.twoUPairs x1 x2) :=
+  C11.pTwoSided_swap x1 x2
+
+/-- **compare_exact.** Inside the exact regime (both samples non-empty, not all equal, exact-branch
+    condition) `AssumeNothing.Compare` — min(1, 2·min(less(x1,x2), less(x2,x1))) — IS the exact two-sided
+    permutation p-value: twice the smaller of the two one-sided tail probabilities over all assignments,
+    capped at 1. No symmetry hypothesis: this is the full `two_sided_spec` for the value benchstat prints
+    (the N5 defect of `MannWhitneyUTest(…, LocationDiffers)` does not reach it). -/
+theorem compare_exact {α : Type} [LinearOrder α] (x1 x2 : List α) (lim limT : Nat)
+    (h1 : x1 ≠ []) (h2 : x2 ≠ []) (hne : Spec.UExact.allEqual x1 x2 = false)
+    (hb : exactBranch (ranks (labeledMerge (sortF x1) (sortF x2))).hasTies x1.length x2.length lim limT = true) :
+    compareAssumeNothing cdfPure lim limT x1 x2
+      = .ok (Spec.UExact.pTwoSided (Spec.UExact.nullDist x1 x2) (Spec.UExact.twoUPairs x1 x2)) :=
+  C11.compare_exact' x1 x2 lim limT h1 h2 hne hb
+
+/-- … and does not change when the two samples are swapped -/
+theorem compare_swap_symmetric {α : Type} [LinearOrder α] (x1 x2 : List α) (lim limT : Nat)
+    (h1 : x1 ≠ []) (h2 : x2 ≠ []) (hne : Spec.UExact.allEqual x1 x2 = false)
+    (hb : exactBranch (ranks (labeledMerge (sortF x1) (sortF x2))).hasTies x1.length x2.length lim limT = true) :
+    compareAssumeNothing cdfPure lim limT x1 x2 = compareAssumeNothing cdfPure lim limT x2 x1 :=
+  C11.compare_swap_symmetric' x1 x2 lim limT h1 h2 hne hb
+
+/-- the same for the evaluator the compiled driver runs -/
+theorem compare_exact_driver {α : Type} [LinearOrder α] (x1 x2 : List α) (lim limT : Nat)
+    (h1 : x1 ≠ []) (h2 : x2 ≠ []) (hne : Spec.UExact.allEqual x1 x2 = false)
+    (hb : exactBranch (ranks (labeledMerge (sortF x1) (sortF x2))).hasTies x1.length x2.length lim limT = true) :
+    compareAssumeNothing cdf lim limT x1 x2
+      = .ok (Spec.UExact.pTwoSided (Spec.UExact.nullDist x1 x2) (Spec.UExact.twoUPairs x1 x2)) :=
+  C11.compare_exact_driver x1 x2 lim limT h1 h2 hne hb
+
+/-- non-vacuity on a tied pair of unequal sizes (breaker C11-Q witness): {1} vs {0,0} ↦ 2/3, both orders -/
+example : compareAssumeNothing cdfPure 50 25 [(1 : Int)] [0, 0] = .ok (2 / 3) := C11.compare_example
+example : compareAssumeNothing cdfPure 50 25 [(0 : Int), 0] [1] = .ok (2 / 3) := C11.compare_example_swapped
 
 end C11.Props
